@@ -367,3 +367,32 @@ Theorem C13_tree_unordered_complete : forall kap bx by_ bz ngx ngy ngz mr1 ps W 
   In (Z.of_nat j, Z.of_nat i, gbid (- a) (- b) (- c)) (search_tree RNum kap gbf ngx ngy ngz mr1 ps roots).
 Proof. exact direct_subset_tree_unordered. Qed.
 Print Assumptions C13_tree_unordered_complete.
+
+(* ================= hybrid integrators (MERCURIUS mode 1, TRACE Kepler mode): search restricted to the encounter map ======= *)
+From RV Require Import C13.Hybrid.
+(* a pair of distinct positions of the encounter map that passes the DIRECT test is handed to resolve (every arithmetic) *)
+Theorem C13_hybrid_mapped_complete : forall (T : Type) (N : Num T) gbf ngx ngy ngz ps emap ninner a b c i j,
+  In a (ring (gcol ngx)) -> In b (ring (gcol ngy)) -> In c (ring (gcol ngz)) ->
+  (i < length emap)%nat -> (j < ninner)%nat -> i <> j ->
+  direct_hit N gbf ps a b c (nth i emap O) (nth j emap O) = true ->
+  In (Z.of_nat (nth i emap O), Z.of_nat (nth j emap O), gbid a b c) (search_direct_mapped N gbf ngx ngy ngz ps emap ninner).
+Proof. exact @mapped_complete. Qed.
+
+(* completeness condition of the hybrid search: reb_mercurius_encounter_predict puts both particles in the map iff
+   rmin < 1.21 max(dcrit_i,dcrit_j)^2 with rmin <= every sampled squared distance.  If dcrit_k >= c r_k for every particle with
+   1.1 c > 2 (the code uses c = 2, "Criteria 4", and dcrit[0] = 2 r_star), every sampled overlap is flagged *)
+Theorem C13_dcrit_covers_overlap : forall c ri rj dci dcj d2 rmin : R,
+  2 < 11 / 10 * c -> 0 <= ri -> 0 <= rj -> c * ri <= dci -> c * rj <= dcj -> 0 < Rmax dci dcj ->
+  rmin <= d2 -> d2 <= (ri + rj) * (ri + rj) ->
+  rmin < 121 / 100 * (Rmax dci dcj * Rmax dci dcj).
+Proof. exact dcrit_covers_overlap. Qed.
+Print Assumptions C13_dcrit_covers_overlap.
+Theorem C13_dcrit_two_radii : forall ri rj dci dcj d2 rmin : R,
+  0 <= ri -> 0 <= rj -> 2 * ri <= dci -> 2 * rj <= dcj -> 0 < Rmax dci dcj ->
+  rmin <= d2 -> d2 <= (ri + rj) * (ri + rj) ->
+  rmin < 121 / 100 * (Rmax dci dcj * Rmax dci dcj).
+Proof. exact dcrit_two_radii. Qed.
+(* the hypothesis is needed: with a critical radius that fell behind the physical radius an overlapping pair is not flagged *)
+Theorem C13_stale_dcrit_refuted : exists ri rj dci dcj d2,
+  0 <= ri /\ 0 <= rj /\ 0 < Rmax dci dcj /\ d2 <= (ri + rj) * (ri + rj) /\ ~ (d2 < 121 / 100 * (Rmax dci dcj * Rmax dci dcj)).
+Proof. exact stale_dcrit_not_flagged. Qed.
